@@ -185,6 +185,130 @@ static void case_errors(H3Index h, vf_rng *r) {
     }
 }
 
+/* ---- iterator steps from deep states (round 9; closes W8_C04) -------------------------------------------------------------
+ * cellToChildren / uncompactCells / polygonToCells all walk the child iterator (_iterInitParent + iterStepChild).  A family
+ * ten or more levels deep (2.8e8 .. 4.7e12 children) cannot be materialised, so the steps that carry through nine to fifteen
+ * digits are unreachable through cellToChildren.  Here the library's own iterator is initialised by the library for a hexagon
+ * parent, its current cell is replaced by the reference child number `pos`, and it is stepped: the cells it then holds must
+ * be the reference children pos+1, pos+2, ... (H3_NULL after the last).
+ * Soundness of replacing the current cell: the iterator is an internal struct, so nothing is assumed about it except what is
+ * *observed* in this process — a calibration walks complete shallow families with the real iterator and requires that (a) its
+ * first eight bytes are always the current child and (b) every other byte the library wrote stays constant over the whole
+ * walk of a hexagon family.  If the symbols are absent or the calibration does not hold (a refactor of the iterator), the
+ * phase is skipped and counted as such (inconclusive for this phase), never reported. */
+typedef union {
+    uint64_t h;
+    unsigned char raw[256];
+} jump_iter;
+extern void _iterInitParent(uint64_t h, int childRes, void *iter) __attribute__((weak));
+extern void iterStepChild(void *iter) __attribute__((weak));
+static int g_jump_ok = -1;
+
+static uint64_t hex_child_at(uint64_t p, int cres, uint64_t pos) {
+    uint64_t c = vf_set_res(p, cres);
+    for (int r = cres; r > VF_RES(p); r--) {
+        c = vf_set_digit(c, r, (int)(pos % 7));
+        pos /= 7;
+    }
+    return c;
+}
+static uint64_t pow7(int n) {
+    uint64_t v = 1;
+    while (n-- > 0) v *= 7;
+    return v;
+}
+static int jump_calibrate(vf_rng *r) {
+    if (!_iterInitParent || !iterStepChild) return 0;
+    for (int t = 0; t < 6; t++) {
+        int res = (int)vf_below(r, 12);
+        uint64_t p = vf_rand_cell(r, res);
+        if (ref_is_pentagon(p)) continue;
+        int cres = res + 1 + (int)vf_below(r, 3);
+        jump_iter a, first;
+        memset(&a, 0xA5, sizeof a);
+        _iterInitParent(p, cres, &a);
+        first = a;
+        uint64_t n = pow7(cres - res);
+        for (uint64_t i = 0; i < n; i++) {
+            if (a.h != hex_child_at(p, cres, i)) return 0;
+            if (memcmp(a.raw + 8, first.raw + 8, sizeof a.raw - 8)) return 0;
+            iterStepChild(&a);
+        }
+        if (a.h != 0) return 0;
+    }
+    return 1;
+}
+static void case_jump(uint64_t p, int cres, uint64_t pos, int steps) {
+    vf_case("jump %016" PRIx64 " %d %" PRIu64 " %d", p, cres, pos, steps);
+    uint64_t key = vf_mix(p) ^ vf_mix(pos * 16 + (uint64_t)cres);
+    if (!VF_GUARD()) {
+        vf_assert_report("iterStepChild", key);
+        VF_UNGUARD();
+        return;
+    }
+    uint64_t n = pow7(cres - VF_RES(p));
+    jump_iter a;
+    memset(&a, 0xA5, sizeof a);
+    _iterInitParent(p, cres, &a);
+    if (a.h != hex_child_at(p, cres, 0)) {
+        vf_violation("iter-init", "cellToChildren", key, "", "child iterator of %016" PRIx64 " at res %d starts at %016" PRIx64 ", reference first child %016" PRIx64, p, cres, a.h, hex_child_at(p, cres, 0));
+        VF_UNGUARD();
+        return;
+    }
+    a.h = hex_child_at(p, cres, pos);
+    int carry = 0;
+    for (uint64_t q = pos + 1; q % 7 == 0 && carry < cres - VF_RES(p); q /= 7) carry++;
+    for (int s = 1; s <= steps; s++) {
+        iterStepChild(&a);
+        uint64_t want = pos + (uint64_t)s < n ? hex_child_at(p, cres, pos + (uint64_t)s) : 0;
+        if (a.h != want) {
+            vf_violation("iter-step", "cellToChildren", key, "",
+                         "child iterator of %016" PRIx64 " at res %d, holding child #%" PRIu64 " (%016" PRIx64 "), steps to %016" PRIx64 "; child #%" PRIu64 " is %016" PRIx64
+                         " (cellToChildren and uncompactCells of this family would list it)",
+                         p, cres, pos + (uint64_t)s - 1, hex_child_at(p, cres, pos + (uint64_t)s - 1), a.h, pos + (uint64_t)s, want);
+            break;
+        }
+        if (want) {
+            if (s == 1) vf_out_cell("cellToChildren", a.h, cres);
+        } else
+            break;
+    }
+    vf_add("jump.cases", 1);
+    {
+        char nm[48];
+        snprintf(nm, sizeof nm, "jump.carry_through_%02d_digits", carry);
+        vf_add(nm, 1);
+    }
+    if (cres - VF_RES(p) >= 10) vf_add("jump.families_ten_or_more_levels_deep", 1);
+    vf_distinct(key);
+    VF_UNGUARD();
+}
+static void phase_jump(vf_rng *r, int64_t *idx) {
+    if (g_jump_ok < 0) g_jump_ok = jump_calibrate(r);
+    if (!g_jump_ok) {
+        vf_add("jump.skipped_iterator_not_observable", 1);
+        return;
+    }
+    vf_add("jump.calibrated", 1);
+    int nc = VF_T(30000, 600000);
+    for (int i = 0; i < nc; i++) {
+        int res = (int)vf_below(r, 15);
+        uint64_t p = vf_rand_cell(r, res);
+        int nlev = 1 + (int)vf_below(r, (uint64_t)(15 - res));
+        if (i % 3 == 0) nlev = 15 - res; /* deepest family of this parent */
+        int cres = res + nlev;
+        int j = 1 + (int)vf_below(r, (uint64_t)nlev); /* run of at least j sixes at the fine end */
+        uint64_t m = 1 + vf_below(r, pow7(nlev - j));
+        uint64_t pos = m * pow7(j) - 1;
+        int back = (int)vf_below(r, 3); /* start 0..2 children before the carry */
+        if ((uint64_t)back > pos) back = 0;
+        if (i % 50 == 0) pos = pow7(nlev) - 1, back = (int)vf_below(r, 2) & (pos > 0);
+        if (i % 7 == 3) pos = vf_below(r, pow7(nlev)), back = 0;
+        if (ref_is_pentagon(p) || !VF_MINE((*idx)++)) continue;
+        case_jump(p, cres, pos - (uint64_t)back, back + 2);
+    }
+}
+
 static void run(void) {
     vf_rng r;
     vf_rng_stream(&r, 4);
@@ -263,6 +387,7 @@ static void run(void) {
             for (int i = 0; i < VF_T(6, 40); i++)
                 if (VF_MINE(idx++)) case_size_only(vf_rand_cell(&r, res), cr);
         }
+    phase_jump(&r, &idx);
     int nh = VF_T(1500, 20000);
     for (int i = 0; i < nh; i++) {
         int res = (int)vf_below(&r, 16);
@@ -286,7 +411,14 @@ static void replay(const char *spec) {
         case_children(h, x);
     else if (sscanf(spec, "size %" SCNx64 " %d", &h, &x) == 2)
         case_size_only(h, x);
-    else if (sscanf(spec, "ancestors %" SCNx64, &h) == 1)
+    else if (sscanf(spec, "jump %" SCNx64 " %d %" SCNu64 " %d", &h, &x, &(uint64_t){0}, &(int){0}) == 4) {
+        uint64_t pos;
+        int st;
+        sscanf(spec, "jump %" SCNx64 " %d %" SCNu64 " %d", &h, &x, &pos, &st);
+        g_jump_ok = jump_calibrate(&r);
+        if (g_jump_ok) case_jump(h, x, pos, st);
+        else vf_add("jump.skipped_iterator_not_observable", 1);
+    } else if (sscanf(spec, "ancestors %" SCNx64, &h) == 1)
         case_ancestors(h);
     else if (sscanf(spec, "errors %" SCNx64 " %d", &h, &x) == 2)
         for (int i = 0; i < 50; i++) case_errors(h, &r);
